@@ -1897,6 +1897,10 @@ def replay_case(ctx, case):
         run_conv(ctx, pend, a, dtype, k, chunks=ch)
     elif fn == 'hotspots':
         run_hotspots(ctx, pend, a, dtype, k, chunks=ch)
+    elif fn in ('sequence', 'dask-one-compute', 'defaults-mutated', 'name', 'stats-object') or fn.startswith('f_'):
+        # findings of the theme / float streams depend on the call sequence: re-run those streams with the recorded seed
+        run_float_stream(ctx)
+        run_theme_stream(ctx)
     elif fn == '_calc_hotspots_numpy':
         run_hot(ctx, pend, np.array(g('z'), dtype=case.get('dtype', 'float64')))
     elif fn == 'custom_kernel':
